@@ -12,13 +12,13 @@ use super::context::print_preset_info;
 #[must_use]
 pub fn run_config(args: &crate::cli::ConfigArgs, cli: &Cli) -> i32 {
     match &args.action {
-        ConfigAction::Validate { config } => run_config_validate(config),
+        ConfigAction::Validate { config } => run_config_validate(config, cli.no_extends),
         ConfigAction::Show { config, format } => run_config_show(config.as_deref(), *format, cli),
     }
 }
 
-fn run_config_validate(config_path: &Path) -> i32 {
-    match run_config_validate_impl(config_path) {
+fn run_config_validate(config_path: &Path, no_extends: bool) -> i32 {
+    match validate_config_file(config_path, no_extends) {
         Ok(()) => {
             println!("Configuration is valid: {}", config_path.display());
             EXIT_SUCCESS
@@ -44,7 +44,12 @@ fn run_config_validate(config_path: &Path) -> i32 {
 /// # Errors
 /// Returns an error if the file doesn't exist, contains invalid TOML,
 /// extends resolution fails, or has semantic errors.
+#[cfg(test)]
 pub(crate) fn run_config_validate_impl(config_path: &Path) -> Result<()> {
+    validate_config_file(config_path, false)
+}
+
+fn validate_config_file(config_path: &Path, no_extends: bool) -> Result<()> {
     if !config_path.exists() {
         return Err(SlocGuardError::Config(format!(
             "Configuration file not found: {}",
@@ -57,7 +62,7 @@ pub(crate) fn run_config_validate_impl(config_path: &Path) -> Result<()> {
     let _: Config = toml::from_str(&content)?;
 
     // Phase 2: Full load with extends chain and semantic validation
-    super::context::load_config(Some(config_path), false, false, FetchPolicy::Normal)?;
+    super::context::load_config(Some(config_path), false, no_extends, FetchPolicy::Normal)?;
 
     Ok(())
 }
@@ -106,8 +111,14 @@ fn load_config(config_path: Option<&Path>, cli: &Cli) -> Result<Config> {
 
     let loader =
         FileConfigLoader::with_options(FetchPolicy::from_cli(cli.extends_policy), project_root);
-    let load_result =
-        config_path.map_or_else(|| loader.load(), |path| loader.load_from_path(path))?;
+    let load_result = if cli.no_extends {
+        config_path.map_or_else(
+            || loader.load_without_extends(),
+            |path| loader.load_from_path_without_extends(path),
+        )
+    } else {
+        config_path.map_or_else(|| loader.load(), |path| loader.load_from_path(path))
+    }?;
 
     // Validate semantic correctness after loading
     validate_config_semantics(&load_result.config)?;
